@@ -125,11 +125,21 @@ def parseBlockRange (s : Bytes) : M (R (Option BlockRange)) :=
 
 /-- `f.Seek(off, 0)` then `f.Read(make([]byte, n))`, result `data[:n']`:
 a negative offset is EINVAL; reading n > 0 bytes at or past the end is io.EOF; otherwise the
-available prefix (a regular file delivers what is there in one read below 1 GiB) -/
+available prefix (a regular file delivers what is there in one read below 1 GiB; used for the
+8192-byte read of ReadSegmentBlock) -/
 def fileReadAt (f : Bytes) (off : Int) (n : Nat) : R Bytes :=
   if off < 0 then .error .io
   else if n = 0 then .ok []
   else if off.toNat ≥ f.length then .error .io
+  else .ok ((f.drop off.toNat).take n)
+
+/-- `f.Seek(off, 0)` then `io.ReadFull(f, make([]byte, n))` (fix 10), result `data[:n]`: like `fileReadAt`, but the
+read is repeated until all `n` bytes are there (a single `Read` delivers at most 1 GiB), and a file that ends
+before `off + n` is an error (io.EOF / io.ErrUnexpectedEOF) instead of a short result -/
+def fileReadFullAt (f : Bytes) (off : Int) (n : Nat) : R Bytes :=
+  if off < 0 then .error .io
+  else if n = 0 then .ok []
+  else if off.toNat + n > f.length then .error .io
   else .ok ((f.drop off.toNat).take n)
 
 def rangeStart (r : Option BlockRange) : Int :=
@@ -157,7 +167,7 @@ def readBlockRange (file : Option Bytes) (r : Option BlockRange) : M (R Bytes) :
         let startOffset := wrap64 (start * 8192)
         let bytesToRead := wrap64 ((end1 - start + 1) * 8192)
         if bytesToRead < 0 then throw .makeLen          -- make([]byte, negative)
-        else pure (fileReadAt f startOffset bytesToRead.toNat)
+        else pure (fileReadFullAt f startOffset bytesToRead.toNat)
 
 /-! ### ParseBlockInfo -/
 
